@@ -7,11 +7,11 @@ CONSTANTS
   ScriptKey = "k16"
   Modes = {"blocking", "nonblocking"}
   Echoes = {TRUE, FALSE}
-  Plans = {"whole", "hdr", "key", "pay"}
+  Plans = {"whole", "hdr", "pay"}
   Frames <- FramesQuick
   MaxFrames = 3
 INIT MCInit
 NEXT MCNext
-INVARIANTS TypeOK Inv_Handshake Inv_WellFormedOut Inv_Delivered Inv_PingPong Inv_Close
+INVARIANTS TypeOK Inv_Handshake Inv_WellFormedOut Inv_Delivered Inv_PingPong Inv_Close GenInv
 PROPERTIES NoneOnlyWhenNothing MsgIsNext
 CHECK_DEADLOCK FALSE
